@@ -205,6 +205,18 @@ theorem removeGroup_fuel (σ : Static) (fuel : Nat) : ∀ (q : WQ) (g : Nat) (n 
       · exact removeGroup_len σ _ _ _ _
       · exact Nat.le_refl _
 
+theorem removeGroup_fuel_ok (σ : Static) (q : WQ) (g : Nat) (n m : GroupNode)
+    (hm : alookup q.groupNodes g = some m) (k : Nat) :
+    removeGroup σ (q.groupNodes.length + 1) q g n = removeGroup σ (q.groupNodes.length + 1 + k) q g n := by
+  induction k with
+  | zero => rfl
+  | succ k ih =>
+    rw [ih]
+    have e1 : q.groupNodes.length + 1 + k = (q.groupNodes.length + k) + 1 := by omega
+    have e2 : q.groupNodes.length + 1 + (k + 1) = (q.groupNodes.length + k) + 2 := by omega
+    rw [e1, e2]
+    exact removeGroup_fuel σ (q.groupNodes.length + k) q g n m hm (by omega)
+
 /-! ### addGroup -/
 
 /-- The groups of the list that have not been visited yet. -/
